@@ -117,6 +117,7 @@ class FragGen:
                 how = "none-applicable"
             elif how == "float":
                 d["fields"][0]["ty"] = T("float", n="f64")
+                d["fields"][0]["skip_none"] = False
             elif how == "opt-ref":
                 d["fields"][0]["ty"] = T("option", t=T("ref", name=u["types"][0]["name"])) if u["types"][0] is not d else T("option", t=T("option", t=T("bool")))
                 d["fields"][0]["ty"] = T("option", t=T("box", t=T("ref", name=d["name"])))
@@ -142,6 +143,15 @@ class FragGen:
             elif how == "array":
                 d["fields"][0]["ty"] = T("array", t=T("bool"), n=2)
                 d["fields"][0]["skip_none"] = False
+        # whatever the perturbation did: skip_serializing_if = "Option::is_none" only on Option members (else rustc E0308)
+        for dd in u["types"]:
+            for f in dd.get("fields", []):
+                if f["ty"]["k"] != "option":
+                    f["skip_none"] = False
+            for v in dd.get("variants", []):
+                for f in v.get("fields", []):
+                    if f["ty"]["k"] != "option":
+                        f["skip_none"] = False
         # a last struct that mentions every type behind a Vec: schema_for!(ZzRoot) then lists EVERY type of the
         # universe under `definitions` (a newtype over a named type is `{"$ref": ..}` there, but
         # `{"allOf": [{"$ref": ..}]}` when it is itself the root of schema_for!)
